@@ -261,6 +261,8 @@ func doSubHist(c *vlib.Ctx, keyType string, id peer.ID, latest0 cid.Cid, steps [
 	}
 	c.Case("subhist", fmt.Sprintf("(SubHist %s [None] %s %s)", optPeerTerm(id), coqOptCid(latest0), vlib.CoqList(terms)),
 		map[string]interface{}{"history": names(steps), "key_type": keyType, "replay": mkReplay(steps)})
+	c.Case("both", fmt.Sprintf("(BothCase %s (SubHist %s [None] %s %s))", chainTerm(), optPeerTerm(id), coqOptCid(latest0), vlib.CoqList(terms)),
+		map[string]interface{}{"history": names(steps), "key_type": keyType, "replay": mkReplay(steps)})
 	c.Nontrivial("subhist/" + keyType + "/" + names(steps) + "/" + cidStr(latest0))
 	for i := range steps {
 		kind, desc := judgeSub(steps[i], id, rs[i])
